@@ -41,6 +41,9 @@ func checkC01(c *Ctx) Meta {
 	//   one the store holds, also when a commit fails
 	// - the store's own key layout, prefix scans and bucket deletion (C19): a deleted keystore leaves
 	//   nothing behind that a later import of the same file would meet
+	// the passphrase an imported keystore is stored under is the one that was validated (and defaulted):
+	// the C03/C05 gate rule — otherwise the import succeeds but no passphrase the caller knows unlocks it
+	checkSamePassphraseGates(c, "C01-AUTH")
 	c.pushAlias("C12-", "C01-TX-")
 	checkC12(c)
 	c.popAlias()
